@@ -393,9 +393,12 @@ class ScoredCollector(Collector):
             # matcher with a more efficient version
             if replace:
                 if replacecounter == 0 or self.minscore != minscore:
-                    self.matcher = matcher = matcher.replace(minscore or 0)
+                    # Only rewrite against the minimum score if the whole
+                    # matcher tree can give (upper) bounds on its scores
+                    minq = (minscore or 0) if usequality else 0
+                    self.matcher = matcher = matcher.replace(minq)
                     self.replaced_times += 1
-                    if minscore:
+                    if minq:
                         self.pruned = True
                     if not matcher.is_active():
                         break
